@@ -98,6 +98,26 @@ CHECKS = {
                       "are reported as a statistic only (not observable behaviour)",
         "assumptions": ["all FORMS/SYNTAX/PAIRS entries are valid TypeScript 5.x"],
     },
+    "C09": {
+        "engines": NATIVE,
+        "level": "exploration",
+        "rule": "acyclic module graphs: ALL DAGs of 1..4 modules in which every module is reachable from the entry (import styles "
+                "named/default/namespace/re-export/export-* as and path spellings ./a, ./x/../a, ././a, /abs/a assigned by rotation, "
+                "modules placed in /app, /app/lib, /app/lib/deep, /other and the root) plus seeded random DAGs of 5..8 modules; each "
+                "loaded under 24 enumerated host strategies (request order / reversed / rotated x all-at-once / one-per-round x no "
+                "extras / early supply of everything / duplicate supplies / re-supply of modules that already ran) plus random "
+                "permutations for the larger graphs. A (graph, strategy) run is non-trivial when at least one NeedImports round "
+                "happened; runs are distinct by construction",
+        "exhaustive": "all reachable DAGs up to 4 modules x the 24 enumerated supply strategies",
+        "floor": {"quick": 3000, "thorough": 10000},
+        "technique": "runtime monitoring: online monitor of the NeedImports protocol (no repeats, nothing already supplied, canonical "
+                     "path vs independent resolver, importer), load-log checker (exactly once, dependencies first), closed-form "
+                     "values and cross-schedule equality of result and exports",
+        "level_text": "Every run is checked against the monitor and the closed-form expectation, and all strategies of one graph must "
+                      "agree on result (which includes the order in which module bodies ran), export table and live-binding reads.",
+        "level_note": "cyclic graphs are outside the property; the load order is observed through a log the module bodies write",
+        "assumptions": ["reference path resolver as in C18"],
+    },
     "C11": {
         "engines": NATIVE,
         "level": "exploration",
